@@ -34,7 +34,7 @@ theorem unmodelledM_spec {α} {b N} {P : St → Prop} {Q : α → St → Prop} :
   intro st _ hb _ _
   unfold unmodelledM
   exact ⟨⟨hb, Nat.le_refl _, fun _ _ => rfl, fun _ h => h, fun _ h => Or.inl h, fun _ _ h => h,
-    fun h => ⟨h.rawB, h.edges⟩⟩, fun r hr => by simp at hr⟩
+    fun h => ⟨h.rawB, h.edges⟩, fun _ => rfl⟩, fun r hr => by simp at hr⟩
 
 theorem planSt_cls (w : World) (hc : HCfg) (c : Nat) (v : HVal) (view : Option Cell) (obj : Option Obj) :
     planSt w hc (.cls c) v view obj = planClsSt w hc.cfg c v view obj := by
